@@ -44,7 +44,8 @@ NeverDeleteDesired(p, e) ==
 StartObjs(e) == Range(e.start.objs)
 Undesired(e) == {o \in StartObjs(e) : o.id \in Range(e.start.refs) /\ o.ctrl # "foreign" /\ o.rname # "-" /\ o.rname \notin Range(e.want)}
 Completed(e) == e.ev = "end" /\ e.result = "ok" /\ ~e.faulty /\ ~e.pfail
-GcDeletesAllUndesired(e) == Completed(e) => {o.id : o \in {x \in Undesired(e) : x.st = "live"}} \subseteq Range(e.gcd)
+\* (e.vanished: resources the environment removed in the middle of this reconcile - there was nothing left to delete)
+GcDeletesAllUndesired(e) == Completed(e) => {o.id : o \in {x \in Undesired(e) : x.st = "live"}} \subseteq (Range(e.gcd) \cup Range(e.vanished))
 GcDeletesOnlyUndesired(e) == Completed(e) => Range(e.gcd) \subseteq {o.id : o \in Undesired(e)}
 
 \* ---- C02: a composed resource controlled by another owner is never written or deleted
